@@ -94,45 +94,74 @@ def make_progress(clock, period_ticks, units, lock=None, terminal=False, auto_re
     from rich.console import Console
     from rich.progress import Progress
 
-    console = Console(file=io.StringIO(), force_terminal=terminal, width=60, color_system=None)
+    console = Console(file=io.StringIO(), force_terminal=terminal, width=60, color_system=None,
+                      _environ={"TERM": "xterm"})
     p = Progress(console=console, auto_refresh=auto_refresh, get_time=clock,
-                 speed_estimate_period=units.time(period_ticks))
+                 speed_estimate_period=units.time(period_ticks), redirect_stdout=False, redirect_stderr=False)
     if lock is not None:
         p._lock = lock
     return p
 
 
+# get_time() calls of one refresh() per visible task with the default columns on a terminal
+# (4 x ProgressColumn.__call__ + BarColumn.render); 0 when the console is not a terminal
+REFRESH_READS = 5
+
+
 # ------------------------------------------------------------------ operations
-# ("A", start, total, completed, visible) ("S", id) ("P", id) ("D", id)
-# ("U", id, total, completed, advance, visible, refresh) ("R", id, start, total, completed, visible) ("V", id, amt)
+# ("A", start, total, completed, visible, desc, fields)      desc: int n  <->  description "d<n>"
+# ("S", id) ("P", id) ("D", id) ("V", id, amt)                fields: [(k, v)]  <->  f<k>=v
+# ("U", id, total, completed, advance, visible, refresh, desc|None, fields)
+# ("R", id, start, total, completed, visible, desc|None, fields)
+# ("F",) Progress.refresh()   ("B",) Progress.start()   ("E",) Progress.stop()
+
+def norm(op):
+    k = op[0]
+    if k == "A" and len(op) == 5:
+        return op + (0, [])
+    if k == "U" and len(op) == 7:
+        return op + (None, [])
+    if k == "R" and len(op) == 6:
+        return op + (None, [])
+    return op
+
+
+def enc_fields(f):
+    return ",".join(f"{k}:{v}" for k, v in f) if f else "-"
+
 
 def enc_op(op):
     def b(x):
         return "_" if x is None else ("1" if x else "0")
 
+    op = norm(op)
     k = op[0]
     if k == "A":
-        return f"A {b(op[1])} {op[2]} {op[3]} {b(op[4])}"
+        return f"A {b(op[1])} {op[2]} {op[3]} {b(op[4])} {op[5]} {enc_fields(op[6])}"
     if k in "SPD":
         return f"{k} {op[1]}"
     if k == "U":
-        return f"U {op[1]} {opt(op[2])} {opt(op[3])} {opt(op[4])} {b(op[5])} {b(op[6])}"
+        return f"U {op[1]} {opt(op[2])} {opt(op[3])} {opt(op[4])} {b(op[5])} {b(op[6])} {opt(op[7])} {enc_fields(op[8])}"
     if k == "R":
-        return f"R {op[1]} {b(op[2])} {opt(op[3])} {op[4]} {b(op[5])}"
+        return f"R {op[1]} {b(op[2])} {opt(op[3])} {op[4]} {b(op[5])} {opt(op[6])} {enc_fields(op[7])}"
     if k == "V":
         return f"V {op[1]} {op[2]}"
+    if k in "FBE":
+        return k
     raise ValueError(op)
+
+
+LAST = {"add_id": None}
 
 
 def apply_op(p, op, u, glue=0):
     """Run one operation on the real Progress; returns 'ok' / 'KeyError' / 'err:Other:<cls>'."""
+    op = norm(op)
     k = op[0]
     try:
         if k == "A":
-            kw = {}
-            if glue % 3 == 1:
-                kw["extra"] = glue
-            p.add_task("t", start=op[1], total=u.amt(op[2]), completed=u.amt(op[3]), visible=op[4], **kw)
+            kw = {f"f{a}": v for a, v in op[6]}
+            LAST["add_id"] = p.add_task(f"d{op[5]}", start=op[1], total=u.amt(op[2]), completed=u.amt(op[3]), visible=op[4], **kw)
         elif k == "S":
             p.start_task(op[1])
         elif k == "P":
@@ -140,7 +169,7 @@ def apply_op(p, op, u, glue=0):
         elif k == "D":
             p.remove_task(op[1])
         elif k == "U":
-            kw = {}
+            kw = {f"f{a}": v for a, v in op[8]}
             if op[2] is not None:
                 kw["total"] = u.amt(op[2])
             if op[3] is not None:
@@ -149,22 +178,26 @@ def apply_op(p, op, u, glue=0):
                 kw["advance"] = u.amt(op[4])
             if op[5] is not None:
                 kw["visible"] = op[5]
-            if glue % 4 == 1:
-                kw["description"] = "d%d" % glue
-            if glue % 5 == 2:
-                kw["note"] = glue
+            if op[7] is not None:
+                kw["description"] = f"d{op[7]}"
             p.update(op[1], refresh=op[6], **kw)
         elif k == "R":
-            kw = {}
+            kw = {f"f{a}": v for a, v in op[7]}
             if op[3] is not None:
                 kw["total"] = u.amt(op[3])
             if op[5] is not None:
                 kw["visible"] = op[5]
-            if glue % 4 == 3:
-                kw["description"] = "r"
+            if op[6] is not None:
+                kw["description"] = f"d{op[6]}"
             p.reset(op[1], start=op[2], completed=u.amt(op[4]), **kw)
         elif k == "V":
             p.advance(op[1], u.amt(op[2]))
+        elif k == "F":
+            p.refresh()
+        elif k == "B":
+            p.start()
+        elif k == "E":
+            p.stop()
         else:
             raise ValueError(op)
     except KeyError:
@@ -256,6 +289,14 @@ def canon_time_remaining(task):
     return f"float:{real!r}"
 
 
+def dec_desc(d):
+    return d[1:] if isinstance(d, str) and d[:1] == "d" and d[1:].isdigit() else f"str:{d!r}"
+
+
+def dec_field(k):
+    return k[1:] if isinstance(k, str) and k[:1] == "f" and k[1:].isdigit() else f"str:{k!r}"
+
+
 def dump_task(task, u, elapsed=False):
     A, T = u.A, u.T
     total = to_units(task.total, A)
@@ -280,6 +321,7 @@ def dump_task(task, u, elapsed=False):
         "1" if task.visible else "0", opt(to_units(task.start_time, T)), opt(to_units(task.stop_time, T)),
         samples, pct, sp, tr,
         ("1" if task.started else "0") + ("1" if task.finished else "0"), str(to_units(task.remaining, A)),
+        dec_desc(task.description), " ".join(f"{dec_field(k)}:{v}" for k, v in task.fields.items()),
     ]
     if elapsed:
         el = get(task, "elapsed")
@@ -303,13 +345,23 @@ class Spec:
         self.neg = {}       # id -> a negative advance may sit in the samples
         self.cold = {}      # id -> advanced/updated while not started (since last clear)
         self.fin = {}       # id -> recorded finished_time (real value) or None
+        self.rws = {}       # id -> the task was reset while it was stopped (stop_time survives reset)
+        self.ever = set()   # every id ever handed out by add_task
+        self.reused = []    # ids handed out twice
 
-    def apply(self, op, u, started_before):
+    def apply(self, op, u, started_before, stopped_before=False, real_id=None):
         """book-keeping for an operation that succeeded (or add_task)."""
+        op = norm(op)
         k = op[0]
+        if k in "FBE":
+            return None
         if k == "A":
-            i = self.next_id
+            i = self.next_id if real_id is None else real_id
             self.next_id += 1
+            if i in self.ever:
+                self.reused.append(i)
+            self.ever.add(i)
+            self.rws[i] = False
             self.base[i] = Fraction(u.amt(op[3]))
             self.advs[i] = Fraction(0)
             self.neg[i] = False
@@ -320,7 +372,7 @@ class Spec:
         if i not in self.base:
             return None
         if k == "D":
-            for d in (self.base, self.advs, self.neg, self.cold, self.fin):
+            for d in (self.base, self.advs, self.neg, self.cold, self.fin, self.rws):
                 d.pop(i, None)
         elif k == "V":
             self.advs[i] += Fraction(u.amt(op[2]))
@@ -344,6 +396,8 @@ class Spec:
             self.advs[i] = Fraction(0)
             self.neg[i] = False
             self.cold[i] = False
+            if stopped_before:
+                self.rws[i] = True
         return i
 
 
@@ -353,10 +407,20 @@ def evaluate(ctx, p, spec, op, res, before, site, inp, check_time=True, classify
     tasks = {t.id: t for t in p.tasks}
     ok_all = True
     k = op[0] if op else None
-    tgt = op[1] if op and k != "A" else None
+    tgt = op[1] if op and k not in ("A", "F", "B", "E") else None
+    ids = [t.id for t in p.tasks]
+    ok_all &= ctx.check(len(set(ids)) == len(ids) and not spec.reused, site + ":ids_never_reused", inp,
+                        f"task ids {ids}: add_task handed out {spec.reused} a second time" if spec.reused else f"duplicate ids {ids}")
     for i, t in tasks.items():
         if i not in spec.base:
             continue
+        if not spec.rws.get(i, False):
+            neg_el = t.start_time is not None and t.stop_time is not None and t.stop_time < t.start_time
+            neg_fin = t.finished_time is not None and t.finished_time < 0
+            ok_all &= ctx.check(not (neg_el or neg_fin), site + ":elapsed_nonneg", inp,
+                                f"task {i} never reset while stopped, yet start={t.start_time!r} stop={t.stop_time!r} finished_time={t.finished_time!r}")
+        elif (t.stop_time is not None and t.start_time is not None and t.stop_time < t.start_time):
+            ctx.note("obs:negative-elapsed-after-reset-of-stopped-task")
         want = spec.base[i] + spec.advs[i]
         ok_all &= ctx.check(Fraction(t.completed) == want, site + ":completed_exact", inp,
                             f"task {i}: completed={t.completed!r}, last set value + advances since = {want}")
@@ -551,6 +615,39 @@ class SchedEvent:
     def wait(self, timeout=None):
         self.sched.yield_point("w")
         return self.flag
+
+
+def make_refresh_thread_class(sched):
+    """Subclass of rich's _RefreshThread on the scheduler's primitives; `run` and `stop` are rich's own."""
+    import rich.progress as rp
+
+    class SchedRefreshThread(rp._RefreshThread):
+        def __init__(self, progress, refresh_per_second=10):
+            super().__init__(progress, refresh_per_second)
+            self.done = SchedEvent(sched)
+            self._tid = "refresh"
+
+        def start(self):
+            sched.register_child(self._tid)
+            super().start()
+            if not sched.first_park[self._tid].acquire(timeout=60):
+                raise RuntimeError("refresh thread did not park")
+
+        def run(self):
+            sched.child_enter(self._tid)
+            try:
+                super().run()
+            except BaseException as e:  # noqa: BLE001
+                sched.exc[self._tid] = e
+            finally:
+                sched.child_exit(self._tid)
+
+        def join(self, timeout=None):
+            if sched.state.get(self._tid) != "done":
+                sched.yield_point("j", waiting_for=self._tid)
+            super().join(timeout)
+
+    return SchedRefreshThread
 
 
 def make_track_thread_class(sched, seen_log):
